@@ -1,6 +1,7 @@
 package main
 
 import (
+	"os"
 	"fmt"
 	"go/ast"
 	"go/constant"
@@ -1618,18 +1619,51 @@ func ruleR13_7(w *World, r *Report) {
 			continue
 		}
 		n++
-		paths, okp := reachingLits(fn, nil, call)
+		// the guard is looked for on the paths of the function that holds the call (the anchored function or a new
+		// helper), each literal taken by itself: either the test errorHandler != nil, or a true predicate helper
+		// that returns true only under that test
+		isSet := func(l Lit) bool {
+			if l.Kind == "cmp" && l.Op == token.NEQ && strings.HasSuffix(canonName(loadSource(l.X)), ".errorHandler") {
+				if k, isC := l.Y.(*ssa.Const); isC && k.Value == nil {
+					return true
+				}
+			}
+			return false
+		}
+		paths, okp := reachingLitsOwn(call.Parent(), nil, call)
 		good := okp && len(paths) > 0
 		for _, p := range paths {
 			g := false
 			for _, l := range p {
-				if l.Kind == "cmp" && l.Op == token.NEQ && strings.HasSuffix(canonName(loadSource(l.X)), ".errorHandler") {
-					if k, isC := l.Y.(*ssa.Const); isC && k.Value == nil {
-						g = true
+				if isSet(l) {
+					g = true
+				}
+				if l.Kind == "call" && l.Pol && l.Call != nil {
+					if h := l.Call.Call.StaticCallee(); h != nil && flattenable[h] {
+						if hl, okh := boolReturnLits(h, true); okh && len(hl) > 0 {
+							all := true
+							for _, hp := range hl {
+								has := false
+								for _, x := range hp {
+									if isSet(x) {
+										has = true
+									}
+								}
+								all = all && has
+							}
+							if all {
+								g = true
+							}
+						}
 					}
 				}
 			}
 			good = good && g
+		}
+		if os.Getenv("VERIF_DEBUG_R137") != "" {
+			for _, p := range paths {
+				fmt.Fprintf(os.Stderr, "R13.7 %s: %s\n", u.Pos(call.Pos()), litsString(p))
+			}
 		}
 		r.Check(good, "subscribeOrCreateDatatype/error handler called only when set", u.Pos(call.Pos()), "guarded by errorHandler != nil", "the error handler is called without a test that it is set: handlers without an error handler make the refusal panic (F47)")
 	}
